@@ -56,11 +56,13 @@ CLAIMED = {
             "exactly one pong per ping, in ping order, nothing for pongs/data; `C07_pong_bytes` — each pong decodes to FIN=1/op 10/masked/same "
             "payload. 'Before it reads any further' is additionally checked on the real read/write timeline of the simulated socket for every "
             "ping length 0..125, bursts, pings inside fragmented messages, byte-wise delivery.", "", "DESIGN.md §6 C07"),
-    "C08": ("Lean 4 theorems C08_status_range_*, C08_inert_* (zero transport calls once released), C08_close_releases" + T_CORR,
-            "Proof: out-of-range statuses refused with state untouched (all states); once `sock is None` recv_frame / recv_data_frame / send make "
-            "zero transport calls for every state and fuel (WS.Lemmas.Released) and send raises CLOSED; close() on a connected object always ends "
-            "in shutdown(). 'At most one own close frame' and the time bound of close() are held by correspondence/oracle over all call "
-            "histories to length 3 (4) x 12 server scripts in virtual time + random histories to length 9.", "", "DESIGN.md §6 C08"),
+    "C08": ("Lean 4 theorems C08_own_close_once (all call/event histories), C08_status_range_*, C08_inert_* (zero transport calls once released), C08_close_releases" + T_CORR,
+            "Proof: `C08_own_close_once` — over every sequence of client calls and every server script, the close frames written by close() or "
+            "the automatic reply (ghost counter) never exceed one and are zero while connected (invariant: both writers need connected, both "
+            "clear it, nothing sets it again); out-of-range statuses refused with state untouched; once `sock is None` recv_frame / "
+            "recv_data_frame / send make zero transport calls (WS.Lemmas.Released) and send raises CLOSED; close() on a connected object always "
+            "ends in shutdown(). The time bound of close() and 'released after a loss' are held by correspondence/oracle over all call histories "
+            "to length 3 (4) x 12 server scripts in virtual time + random histories to length 9.", "", "DESIGN.md §6 C08"),
     "C09": ("Lean 4 theorems C09_only_if / C09_failure_clean / C09_redirect_bound / C09_key_binding" + T_CORR,
             "Proof over every world (scripted dials, responses byte by byte with timeout/reset/EOF anywhere): connected only after a 101 with "
             "upgrade tokens, accept = acceptOf(key of that very request), offered subprotocol; at most limit+1 dials; any raise leaves the "
